@@ -100,9 +100,9 @@ func concScenarios() []concScen {
 func pairScenarios(thorough bool) []concScen {
 	ops := []string{"set 1", "set 3", "inv 1", "get 1", "cw 1", "ci 1", "cia 3", "sia 1", "cipw 1", "invall", "setmax 1", "cleanup", "load 3 val", "get 2"}
 	var out []concScen
-	cfgs := []CacheCfg{{MaxSize: 2, Executor: "caller"}}
+	cfgs := []CacheCfg{{MaxSize: 2, Executor: "caller"}, {MaxSize: 2, Expiry: "accessing", TTL: 1000, Executor: "caller", ClockStart: 1 << 40}}
 	if thorough {
-		cfgs = append(cfgs, CacheCfg{MaxSize: 2, Executor: "default"}, CacheCfg{MaxSize: 2, Expiry: "accessing", TTL: 1000, Executor: "caller", ClockStart: 1 << 40})
+		cfgs = append(cfgs, CacheCfg{MaxSize: 2, Executor: "default"}, CacheCfg{MaxSize: 2, Expiry: "writing", TTL: 1000, Refresh: "writing", RefreshTTL: 400, Executor: "caller", ClockStart: 1 << 40})
 	}
 	for _, cfg := range cfgs {
 		for i, a := range ops {
@@ -115,6 +115,22 @@ func pairScenarios(thorough bool) []concScen {
 					lbl += "/expiring"
 				}
 				out = append(out, concScen{lbl, cfg, []string{"set 1", "set 2", "get 2"}, [][]string{{a}, {b}}, "native"})
+			}
+		}
+	}
+	// the same on a weighted cache: updates that change the weight, pinned (zero-weight) entries, a lowered maximum
+	wops := []string{"set 1 3", "set 1 0", "set 3 2", "set 2 4", "inv 1", "get 1", "cw 1", "setmax 2", "invall", "cleanup", "load 3 val"}
+	wcfgs := []CacheCfg{{MaxWeight: 4, Executor: "caller"}}
+	if thorough {
+		wcfgs = append(wcfgs, CacheCfg{MaxWeight: 4, Executor: "default"})
+	}
+	for _, cfg := range wcfgs {
+		for i, a := range wops {
+			for _, b := range wops[i:] {
+				if (a == "get 1" || a == "cleanup") && (b == "get 1" || b == "cleanup") {
+					continue
+				}
+				out = append(out, concScen{"wpair:" + a + "‖" + b + "/" + cfg.Executor, cfg, []string{"set 1 2", "set 2 1", "get 2"}, [][]string{{a}, {b}}, "native"})
 			}
 		}
 	}
